@@ -183,6 +183,17 @@ def judge(prop, f, impl, model, spec):
                 if impl != spec:
                     j.viol = "parse tree differs from the XPath 1.0 grouping: impl=%s ref=%s" % (impl, spec)
                 j.nontrivial = True
+            elif spec.startswith("full:differs:") and impl == model:
+                # the model's tree (= the package's) against the tree the full reference grammar assigns
+                # (Spec/FullGrammar.lean, written from the Recommendation alone; compared modulo normConv)
+                j.viol = "parse tree differs from the tree of the XPath 1.0 grammar: impl=%s grammar=%s" % (impl, spec[len("full:differs:"):])
+            elif spec == "full:same":
+                j.nontrivial = True
+                if impl.startswith("ast:") and model.startswith("ast:") and impl != model:
+                    # the model's tree is the grammar's tree; the package's tree is a different one
+                    j.viol = "parse tree differs from the tree of the XPath 1.0 grammar: impl=%s grammar(=model)=%s" % (impl, model)
+            elif spec.startswith("full:none") and impl.startswith("ast:"):
+                j.obs = "accepted by the package, not derivable in the XPath 1.0 grammar (predicate on '.'/'..', sequence form, unknown axis name rejected later …)"
             cmp_model(j, impl, model)
         elif kind == "meta":
             judge_meta(j, f, impl, model, spec)
